@@ -85,3 +85,11 @@ contract("C13.identify_with_the_given_schema", file="hed/models/hed_tag.py", fun
                  " and len(answered_remainder(hed_schema, self, self.schema_namespace)) > 0,"
                  " self._extension_value == answered_remainder(hed_schema, self, self.schema_namespace))",
          })
+
+# C13 "loading ... two schemas under one prefix with clashing names is refused": the duplicate-name question is answered from the sections as
+# they are NOW, every time it is asked - the function keeps no state on the schema (a remembered answer would survive a later merge)
+class_model("HedSchemaDup", {"_sections": "Opaque"})
+contract("C13.has_duplicates_keeps_no_state", file="hed/schema/hed_schema.py", func="HedSchema.has_duplicates",
+         params={"self": "HedSchemaDup"}, returns="Opaque", enc="native", self_class="HedSchemaDup", unwind="havoc",
+         ghost={"pure": True}, ensures={},
+         assume=["the loop over the sections is explored as one arbitrary iteration (sound for the frame obligation)"])
